@@ -1122,6 +1122,16 @@ impl<'a> RepositoryUpdate<'a> {
             }
         }
 
+        // The deltas we are going to apply must form an unbroken chain.
+        if deltas.windows(2).any(|pair| {
+            pair[0].serial().checked_add(1) != Some(pair[1].serial())
+        }) {
+            self.log.debug(format_args!(
+                "Delta list has gaps or repeated serials."
+            ));
+            return Err(SnapshotReason::BadDeltaSet)
+        }
+
         if deltas.len() > self.collector.config.max_delta_count {
             self.log.debug(format_args!(
                 "Too many delta steps required ({})", deltas.len()
